@@ -184,7 +184,9 @@ theorem present_reachExit {bs : List Blk} {b : Blk} (hwk : Walk P bs b)
       rcases e with ⟨op, el⟩
       cases op with
       | use => exact .here (by rw [hev]; rfl)
-      | give => exact absurd rfl (blockEvs_notGive hw l (walk_blocks hw hwk) ⟨Op.give, el⟩ (by rw [hev]; rfl))
+      | give =>
+        have hri : l ∈ P.rowIds := by unfold Prog.rowIds; exact List.mem_append_left _ hb
+        exact absurd rfl (blockEvs_notGive hw l hri (walk_blocks hw hwk) ⟨Op.give, el⟩ (by rw [hev]; rfl))
       | asg =>
         obtain ⟨o, o1, h1, h2, _⟩ := good_run hw hg (l := l) hwk
         rw [ho] at h1
